@@ -1,6 +1,8 @@
 #!/bin/bash
 # copies the contract mirror into /repo as comment-only, build-tag-guarded files and commits them there (hook commit)
 set -e
+# refresh the recorded variable tables (//@ vars ...) from the current source: contracts are (re)written against this tree
+GOVC_CONTRACTS=mirror /verif/bin/govc annotate
 cp /verif/contracts/root_contracts_verif.go /repo/zz_contracts_verif.go 2>/dev/null || true
 cp /verif/contracts/keeper_contracts_verif.go /repo/keeper/zz_contracts_verif.go
 cp /verif/contracts/types_contracts_verif.go /repo/types/zz_contracts_verif.go
